@@ -87,6 +87,26 @@ class G:
         self._alias = {}
         self._sorted = None
         self._phi = None
+        # parameters that are only ever re-assigned by exchanging them with one another (`(a, b) = (b, a)`): their current value
+        # is still one of the two caller values, so they keep standing for "a parameter" in guards
+        self.exchange_params = {}
+        ds = self.d
+        for l in range(1, body.arg_count + 1):
+            wd = ds.whole_defs(l)
+            if not wd or len(ds.defs.get(l, [])) != len(wd):
+                continue
+            partners = {l}
+            okx = True
+            for dd in wd:
+                if dd[0] != "stmt":
+                    okx = False; break
+                e_ = strip(ds.rvalue(dd[3]["rv"]))
+                if e_[0] in ("var", "param") and 1 <= e_[1] <= body.arg_count and e_[1] != l:
+                    partners.add(e_[1])
+                else:
+                    okx = False; break
+            if okx and len(partners) == 2:
+                self.exchange_params[l] = partners
         # field index -> unit for array receivers
         self.dimf = {}
         for a in f.adts:
@@ -128,6 +148,8 @@ class G:
             fields.append(e[2])
             e = strip(e[1])
         if e[0] == "param":
+            return (e[1], tuple(reversed(fields)))
+        if e[0] == "var" and e[1] in self.exchange_params:
             return (e[1], tuple(reversed(fields)))
         if e[0] == "var" and fields and e[1] in self.phi_vars():
             # component of a local that holds a branch-dependent arrangement of parameters: a pseudo parameter
@@ -435,6 +457,12 @@ class G:
             if true_succ is None:
                 continue
             tt = b.blocks[true_succ]["term"]
+            # exchange by tuple assignment on the true edge: `(P, Q) = (Q, P)`
+            if px[0] in self.exchange_params and py[0] in self.exchange_params and self.exchange_params[px[0]] == {px[0], py[0]}:
+                stores = {st["p"]["local"] for st in b.blocks[true_succ]["stmts"] if st["k"] == "assign" and not st["p"]["proj"]}
+                if {px[0], py[0]} <= stores:
+                    out.append((py, px))
+                    continue
             # the swap may be a few straight-line blocks away
             hops = 0
             cur = true_succ
